@@ -2,6 +2,7 @@ pub mod ftcore;
 pub mod vaultx;
 
 pub mod c01;
+pub mod c01rwa;
 pub mod c02;
 pub mod c03;
 pub mod c04;
